@@ -1,4 +1,10 @@
-"""C15 — shutdown is final, leak-free and reversible (socket level; API level added by the API harness)."""
+"""C15 — shutdown is final, leak-free and reversible: socket level (close() at any point of recorded scripts, judged by the
+Spec monitor and replayed against the model) and API level (shutdown() of the real AirTouch4/5 object over the real socket at
+every instant of console scenarios, judged directly)."""
+import multiprocessing
+import os
+
+import fullstack
 import sockcheck
 
 LEAN_MODULES = ["PyAirtouch.Props.C15"]
@@ -23,7 +29,98 @@ def run(ctx, deep=False):
         items = sockcheck.gen_scripts(ctx.seed * 23 + gen, [("close", n)])
         good = sockcheck.judge_family(ctx, "C15", items, MONITORS, gen=gen, nontrivial=_nontrivial)
         sockcheck.validate_against_model(ctx, good, "AT%d" % gen)
+    api_level(ctx, thorough)
     ctx.assumptions += ["cancellation semantics of asyncio tasks are trusted"]
+
+
+# ------------------------------------------------------------------------------------------------ API level
+def judge_api(o):
+    """the clauses of the statement, on what was observed after shutdown() returned"""
+    bad = []
+    if o.get("shutdown_raised"):
+        bad.append(("shutdown-raises", "shutdown() raised %s" % o["shutdown_raised"]))
+    if o.get("tasks_alive") or o.get("timers"):
+        bad.append(("leak", "still scheduled after shutdown() returned and 1000 s passed: tasks %s, %d timers" % (o.get("tasks_alive"), o.get("timers", 0))))
+    if o.get("after_events"):
+        bad.append(("activity", "network activity after shutdown() returned: %s" % (o["after_events"][:4],)))
+    if o.get("after_connected_notifications"):
+        bad.append(("notify", "connected notification after shutdown() returned"))
+    if o.get("open_conns"):
+        bad.append(("open-connection", "connections still open: %s" % o["open_conns"]))
+    if o.get("send_after") != "NotOpenError":
+        bad.append(("send", "sending after shutdown: %s (must raise the not-open error)" % o.get("send_after")))
+    if o.get("initialised_after"):
+        bad.append(("initialised", "the object reports initialised after shutdown() returned"))
+    if "reinit_result" in o:
+        if o["reinit_result"] is not True:
+            bad.append(("reinit", "a later init() returned %s" % (o["reinit_result"],)))
+        elif o.get("reinit_view") != o.get("baseline_view"):
+            bad.append(("reinit-model", "the model rebuilt by a later init() differs from a fresh object's"))
+        elif o.get("reinit_heartbeats", 0) < 2:
+            # the handshake itself asks for the console version once; a heartbeat is a further request
+            bad.append(("reinit-heartbeat", "no heartbeat request within 312 s after a later init() (version requests seen: %d, one belongs to the handshake)" % o.get("reinit_heartbeats", 0)))
+        if o.get("second_shutdown_raised"):
+            bad.append(("reinit-shutdown", "the shutdown() after the later init() raised %s" % o["second_shutdown_raised"]))
+        if o.get("tasks_alive_2") or o.get("timers_2") or o.get("open_conns_2"):
+            bad.append(("reinit-leak", "left after the second shutdown(): tasks %s, %s timers, connections %s" % (o.get("tasks_alive_2"), o.get("timers_2"), o.get("open_conns_2"))))
+    return bad
+
+
+def _api_one(job):
+    gen, name, moment, reinit, base_view = job
+    try:
+        o = fullstack.run(gen, fullstack.SCENARIOS[name], tuple(moment), reinit)
+    except Exception as e:  # noqa: BLE001
+        return job, None, "%s: %s" % (type(e).__name__, e)
+    o["baseline_view"] = base_view
+    return job, o, None
+
+
+def api_level(ctx, thorough):
+    kmax = 12 if thorough else 6
+    jobs = []
+    for gen in (4, 5):
+        for name, sc in fullstack.SCENARIOS.items():
+            base = fullstack.run(gen, sc)
+            ctx.count("api:baseline:%s:init=%s" % (name, base["init_result"]))
+            n = base["baseline_events"]
+            ref_view = fullstack.run(gen, fullstack.SCENARIOS["plain"])["view"]
+            for j in range(0, n):
+                for k in range(0, kmax + 1):
+                    if not thorough and n > 40 and (j * 31 + k * 7 + ctx.seed) % 3:
+                        continue
+                    jobs.append((gen, name, ("event", j, k), (j + k + ctx.seed) % 3 == 0, ref_view))
+            horizon = sc.get("horizon", 200)
+            ticks_ = sorted(set([1, 2, 15, 16, 17, 39, 40, 41, 42] + [t for t in (2399, 2400, 2401, 2639, 2640, 2641, 4800, 5040, 5041) if t < horizon + 40]
+                                + [ctx.rng.randrange(1, horizon) for _ in range(20 if thorough else 6)]))
+            for t in ticks_:
+                for k in (0, 1, 2, 3) if not thorough else range(0, 8):
+                    jobs.append((gen, name, ("tick", t, k), (t + k) % 2 == 0, ref_view))
+    with multiprocessing.get_context("fork").Pool(min(16, os.cpu_count() or 4)) as pool:
+        results = pool.map(_api_one, jobs, chunksize=16)
+    worst = {}
+    for (gen, name, moment, reinit, _), o, err in results:
+        if err:
+            raise RuntimeError("full-stack harness failed on %r: %s" % ((gen, name, moment), err))
+        ctx.case(("api", gen, name, tuple(moment), reinit))
+        ctx.count("api:%s:state_at_shutdown=%s" % (name, o.get("state_before")))
+        if o.get("moment_not_reached"):
+            ctx.count("api:moment-not-reached")
+        for kind, what in judge_api(o):
+            key = "C15:api:%d:%s" % (gen, kind)
+            if key not in worst:
+                worst[key] = (gen, name, moment, reinit, what, o)
+    for key, (gen, name, moment, reinit, what, o) in worst.items():
+        ctx.violation(key, "AirTouch %d, console scenario '%s', shutdown() issued %s (API state %s): %s" % (
+            gen, name, "%d loop passes after network event %d" % (moment[2], moment[1]) if moment[0] == "event" else "%d loop passes after tick %d" % (moment[2], moment[1]),
+            o.get("state_before"), what), kind="history", level="api", gen=gen, scenario=name, moment=list(moment), reinit=reinit,
+            implementation_output={k: v for k, v in o.items() if k not in ("reinit_view", "baseline_view")}, spec_verdict=what)
+    ctx.coverage["rule"] += (
+        " API level: the real AirTouch4 / AirTouch5 object over the real socket and the in-memory transport against a scripted console "
+        "(scenarios: %s); shutdown() issued k = 0..%d loop passes after EVERY network event of the run (connect attempt, connection, each "
+        "transport write) and after selected instants (retry delays, the 5 s init deadline, heartbeat and timeout instants), then 1000 s idle, "
+        "census of tasks / timers / transports / network activity / notifications, a send (must raise not-open), and in a third of the runs a "
+        "later init() whose model must equal a fresh object's, which must send heartbeats again and shut down cleanly." % (", ".join(fullstack.SCENARIOS), kmax))
 
 
 def search(ctx):
@@ -32,4 +129,11 @@ def search(ctx):
 
 
 def replay(ctx, data):
+    if data.get("level") == "api":
+        o = fullstack.run(data["gen"], fullstack.SCENARIOS[data["scenario"]], tuple(data["moment"]), data.get("reinit", False))
+        o["baseline_view"] = fullstack.run(data["gen"], fullstack.SCENARIOS["plain"])["view"]
+        bad = judge_api(o)
+        print({k: v for k, v in o.items() if "view" not in k})
+        print(bad)
+        return 1 if bad else 0
     return sockcheck.replay(ctx, data)
